@@ -79,7 +79,37 @@ def obs_dim(d, file=False):
     return ['nums', xs]
 
 
+def accessors_agree(ar):
+    """get_dim / get_dim_units / get_dim_name (and the alias dim) answer for axis n what dims[n], dim_units[n], dim_names[n] hold;
+    a plain array has depth 0."""
+    try:
+        for n in range(ar.rank):
+            if ar.get_dim(n) is not ar.dims[n] or ar.dim(np.int64(n)) is not ar.dims[n]:
+                return f'get_dim({n}) is not dims[{n}]'
+            if ar.get_dim_units(n) != ar.dim_units[n]:
+                return f'get_dim_units({n}) != dim_units[{n}]'
+            if ar.get_dim_name(n) != ar.dim_names[n]:
+                return f'get_dim_name({n}) != dim_names[{n}]'
+        for bad in (ar.get_dim, ar.get_dim_units, ar.get_dim_name):
+            try:
+                bad(ar.rank)
+                return f'{bad.__name__}({ar.rank}) accepted for rank {ar.rank}'
+            except AssertionError:
+                pass
+        if not ar.is_stack and ar.depth != 0:
+            return f'depth {ar.depth} for a plain array'
+    except BaseException as e:
+        return f'accessor raised {type(e).__name__}: {e}'
+    return None
+
+
 def obs_arr(ar):
+    d = _obs_arr(ar)
+    d['accessors'] = accessors_agree(ar)
+    return d
+
+
+def _obs_arr(ar):
     return {'shape': [int(x) for x in ar.shape], 'depth': int(ar.depth) if ar.is_stack else None,
             'dims': [obs_dim(d) for d in ar.dims], 'units': [str(u) for u in ar.dim_units], 'names': [str(s) for s in ar.dim_names],
             'units_types': [type(u).__name__ for u in ar.dim_units],
@@ -324,7 +354,13 @@ def run_scenario(sc, scratch):
                         try:
                             s = ar[lab]
                             idx = next((j for j in range(ar.depth) if data_equal(np.asarray(s.data), np.asarray(ar.data[j]))), None)
-                            sl.append({'label': str(lab), 'i': i, 'slice_index_by_data': idx, 'same_as_i': data_equal(np.asarray(s.data), np.asarray(ar.data[i])),
+                            tup = None
+                            if ar.rank >= 1 and all(x > 0 for x in ar.shape):
+                                # ar[label, i0, ...] = ar[label].data[i0, ...]
+                                ix = tuple(x - 1 for x in ar.shape)
+                                tup = bool(data_equal(np.asarray(ar[(lab,) + ix]), np.asarray(s.data[ix]))) and \
+                                    bool(data_equal(np.asarray(ar[lab, 0]), np.asarray(s.data[0])))
+                            sl.append({'label': str(lab), 'i': i, 'slice_index_by_data': idx, 'same_as_i': data_equal(np.asarray(s.data), np.asarray(ar.data[i])), 'tuple_index': tup,
                                        'same_as': {str(j): data_equal(np.asarray(s.data), np.asarray(ar.data[j])) for j in range(ar.depth)},
                                        'arr': obs_arr(s), 'units': str(s.units)})
                         except BaseException as e:
